@@ -226,6 +226,25 @@ func (this *DefaultInputBitStream) readFromInputStream(count int) (int, error) {
 
 	this.read += (int64(this.position << 3))
 	size, err := this.is.Read(this.buffer[0:count])
+
+	// The underlying reader may return fewer bytes than requested (pipe, socket, ...).
+	// Top up so that a partial 64-bit word can only appear at the end of the stream.
+	for size > 0 && size&7 != 0 && size < count && err == nil {
+		var n int
+		n, err = this.is.Read(this.buffer[size:count])
+
+		if n <= 0 {
+			if err == nil {
+				// No progress and no error: give up, treat as end of available data
+				break
+			}
+
+			continue
+		}
+
+		size += n
+	}
+
 	this.position = 0
 
 	if size <= 0 {
